@@ -49,7 +49,7 @@ func (fr *frame) indexAddr(x *ssa.IndexAddr) Val {
 	case *types.Slice:
 		s := fr.term(v)
 		fr.safetyCheck("index", "slice index in range", x.Pos(), fr.inBounds(i, "(s_len "+s+")"))
-		return Val{typ: x.Type(), ptr: &Ptr{kind: pSliceElem, ref: "(s_ref " + s + ")", typ: tt.Elem(), idx: u.idxAdd("(s_off "+s+")", i)}}
+		return Val{typ: x.Type(), ptr: &Ptr{kind: pSliceElem, ref: "(s_ref " + s + ")", typ: tt.Elem(), idx: u.elemIdx("(s_off "+s+")", i)}}
 	case *types.Pointer:
 		at := tt.Elem().Underlying().(*types.Array)
 		fr.safetyCheck("index", "array index in range", x.Pos(), fr.inBounds(i, u.mode.idxLit(at.Len())))
@@ -174,33 +174,18 @@ func (fr *frame) appendOp(c *ssa.CallCommon, pos ssa.Instruction) Val {
 	I := m.idxSort()
 	n := "(s_len " + t + ")"
 	newLen := u.define(fr.tag("applen"), I, u.idxAdd("(s_len "+s+")", n))
-	fits := m.cmp("<=", newLen, "(s_cap "+s+")", true)
-	// the written region, as a fresh array constrained pointwise
-	dst := u.declConst(fr.tag("apparr"), fmt.Sprintf("(Array %s %s)", I, es))
+	fits := u.define(fr.tag("appfits"), "Bool", m.cmp("<=", newLen, "(s_cap "+s+")", true))
 	r := fr.freshRef()
 	newCap := u.declConst(fr.tag("appcap"), I)
 	u.assert(m.cmp("<=", newLen, newCap, true))
 	u.assert(u.lenBound(newCap))
-	// base offset of the result
-	resOff := fmt.Sprintf("(ite %s (s_off %s) %s)", fits, s, m.idxLit(0))
-	resRef := fmt.Sprintf("(ite %s (s_ref %s) %s)", fits, s, r)
-	// nil/empty append of nothing keeps the slice; modelled by the general case
 	srcArr := fmt.Sprintf("(select %s (s_ref %s))", M, s)
 	tArr := fmt.Sprintf("(select %s (s_ref %s))", M, t)
-	// dst[resOff+j] for j < len(s) = src[off+j]; for len(s) <= j < newLen = t[toff + j-len(s)]; elsewhere (in place) = src
-	j := "j!app"
-	body := fmt.Sprintf("(= (select %s %s) (ite %s (select %s %s) (ite %s (select %s %s) (ite %s (select %s %s) %s))))",
-		dst, u.idxAdd(resOff, j),
-		fmt.Sprintf("(and %s %s)", m.cmp("<=", m.idxLit(0), j, true), m.cmp("<", j, "(s_len "+s+")", true)),
-		srcArr, u.idxAdd("(s_off "+s+")", j),
-		fmt.Sprintf("(and %s %s)", m.cmp("<=", "(s_len "+s+")", j, true), m.cmp("<", j, newLen, true)),
-		tArr, u.idxAdd("(s_off "+t+")", u.idxSub(j, "(s_len "+s+")")),
-		fits, srcArr, u.idxAdd(resOff, j), u.zero(st.Elem()))
-	u.assert(fmt.Sprintf("(forall ((%s %s)) (! %s :pattern ((select %s %s))))", j, I, body, dst, u.idxAdd(resOff, j)))
-	// single-element fast path facts (help the solvers avoid the quantifier)
-	u.assert(fmt.Sprintf("(=> (= %s %s) (= (select %s %s) (select %s (s_off %s))))", n, m.idxLit(1), dst, u.idxAdd(resOff, "(s_len "+s+")"), tArr, t))
-	fr.st.set(k, fmt.Sprintf("(store %s %s %s)", M, resRef, dst))
-	res := fmt.Sprintf("(mk-slc %s %s %s (ite %s (s_cap %s) %s))", resRef, resOff, newLen, fits, s, newCap)
+	inPlace := u.blitOf(es, srcArr, u.idxAdd("(s_off "+s+")", "(s_len "+s+")"), tArr, "(s_off "+t+")", n)
+	copied := u.blitOf(es, u.shiftOf(es, srcArr, "(s_off "+s+")"), "(s_len "+s+")", tArr, "(s_off "+t+")", n)
+	resRef := u.define(fr.tag("appref"), "Int", fmt.Sprintf("(ite %s (s_ref %s) %s)", fits, s, r))
+	fr.st.set(k, fmt.Sprintf("(store %s %s (ite %s %s %s))", M, resRef, fits, inPlace, copied))
+	res := fmt.Sprintf("(mk-slc %s (ite %s (s_off %s) %s) %s (ite %s (s_cap %s) %s))", resRef, fits, s, m.idxLit(0), newLen, fits, s, newCap)
 	_ = pos
 	return Val{t: u.define(fr.tag("append"), "Slc", res), typ: c.Args[0].Type()}
 }
@@ -214,26 +199,16 @@ func (fr *frame) copyOp(c *ssa.CallCommon) Val {
 	es := u.sortOf(st.Elem())
 	k := u.keyM(st.Elem())
 	M := fr.st.get(u, k)
-	var srcLen string
-	var srcAt func(j string) string
+	var srcLen, srcArr, srcOff string
 	if isString(c.Args[1].Type()) {
 		s := fr.term(fr.val(c.Args[1]))
-		srcLen = "(S_len " + s + ")"
-		srcAt = func(j string) string { return "(select (S_arr " + s + ") " + j + ")" }
+		srcLen, srcArr, srcOff = "(S_len "+s+")", "(S_arr "+s+")", m.idxLit(0)
 	} else {
 		s := fr.term(fr.val(c.Args[1]))
-		srcLen = "(s_len " + s + ")"
-		srcAt = func(j string) string {
-			return fmt.Sprintf("(select (select %s (s_ref %s)) %s)", M, s, u.idxAdd("(s_off "+s+")", j))
-		}
+		srcLen, srcArr, srcOff = "(s_len "+s+")", fmt.Sprintf("(select %s (s_ref %s))", M, s), "(s_off "+s+")"
 	}
 	n := u.define(fr.tag("copyn"), I, fmt.Sprintf("(ite %s (s_len %s) %s)", m.cmp("<=", "(s_len "+d+")", srcLen, true), d, srcLen))
-	dst := u.declConst(fr.tag("copyarr"), fmt.Sprintf("(Array %s %s)", I, es))
-	j := "j!cp"
 	old := fmt.Sprintf("(select %s (s_ref %s))", M, d)
-	inR := fmt.Sprintf("(and %s %s)", m.cmp("<=", "(s_off "+d+")", j, true), m.cmp("<", j, u.idxAdd("(s_off "+d+")", n), true))
-	body := fmt.Sprintf("(= (select %s %s) (ite %s %s (select %s %s)))", dst, j, inR, srcAt(u.idxSub(j, "(s_off "+d+")")), old, j)
-	u.assert(fmt.Sprintf("(forall ((%s %s)) (! %s :pattern ((select %s %s))))", j, I, body, dst, j))
-	fr.st.set(k, fmt.Sprintf("(store %s (s_ref %s) %s)", M, d, dst))
+	fr.st.set(k, fmt.Sprintf("(store %s (s_ref %s) %s)", M, d, u.blitOf(es, old, "(s_off "+d+")", srcArr, srcOff, n)))
 	return Val{t: n, typ: types.Typ[types.Int]}
 }
